@@ -931,6 +931,7 @@ def run(chk: core.Check) -> None:
     chk.model(f'SeqTypes/{tier}', r)
     types = printed(r.output, 'types')[0]
     values = printed(r.output, 'values')[0]
+    chk.coverage['ambiguous_pairs_excluded'] = printed(r.output, 'ambiguous')[0]
     g = tla.load_dot(dot)
     os.remove(dot)
     edges = []
